@@ -209,7 +209,10 @@ impl Audit<'_, WithLeafHash, WithRoot> {
                 root,
             },
         } = self;
-        *root == proof.reconstruct_root_with_leaf_hash(*leaf_hash)
+        // A proof whose audit path does not contain exactly one hash for every step from the leaf
+        // to the root does not prove inclusion, whatever the hashes are.
+        proof.has_complete_audit_path()
+            && *root == proof.reconstruct_root_with_leaf_hash(*leaf_hash)
     }
 }
 
@@ -223,15 +226,6 @@ impl InvalidProof {
         Self {
             kind: InvalidProofKind::AuditPathNotMultipleOf32 {
                 len,
-            },
-        }
-    }
-
-    fn audit_path_wrong_length(actual: usize, expected: usize) -> Self {
-        Self {
-            kind: InvalidProofKind::AuditPathWrongLength {
-                actual,
-                expected,
             },
         }
     }
@@ -277,10 +271,6 @@ enum InvalidProofKind {
     AuditPathNotMultipleOf32 {
         len: usize,
     },
-    AuditPathWrongLength {
-        actual: usize,
-        expected: usize,
-    },
     LeafIndexOutsideTree {
         leaf_index: usize,
         tree_size: NonZeroUsize,
@@ -298,13 +288,6 @@ impl std::fmt::Display for InvalidProofKind {
                 len,
             } => f.write_fmt(format_args!(
                 "audit path byte buffer length must be a multiple of 32 bytes, but was {len} bytes"
-            )),
-            InvalidProofKind::AuditPathWrongLength {
-                actual,
-                expected,
-            } => f.write_fmt(format_args!(
-                "audit path must contain exactly {expected} hashes for the given leaf index and \
-                 tree size, but contained {actual}"
             )),
             InvalidProofKind::LeafIndexOutsideTree {
                 leaf_index,
@@ -333,7 +316,7 @@ impl std::error::Error for InvalidProofKind {}
 /// ```rust
 /// use astria_merkle::Proof;
 /// let proof = Proof::unchecked()
-///     .audit_path(vec![42u8; 96])
+///     .audit_path(vec![42u8; 128])
 ///     .leaf_index(3)
 ///     .tree_size(15)
 ///     .try_into_proof()
@@ -404,9 +387,7 @@ impl UncheckedProof {
     /// + if the tree size is zero, see [`ProofBuilder::tree_size`];
     /// + if the tree size exceeds the maximum supported tree size;
     /// + if the leaf index falls outside the tree, see [`ProofBuilder::leaf_index`];
-    /// + if the audit path length is not a multiple of 32, see [`ProofBuilder::audit_path`];
-    /// + if the audit path does not contain exactly one hash for every step from the leaf to the
-    ///   root of a tree of the given size.
+    /// + if the audit path length is not a multiple of 32, see [`ProofBuilder::audit_path`].
     pub fn try_into_proof(self) -> Result<Proof, InvalidProof> {
         let Self {
             audit_path,
@@ -430,18 +411,6 @@ impl UncheckedProof {
             return Err(InvalidProof::audit_path_not_multiple_of_32(
                 audit_path.len(),
             ));
-        }
-
-        // A proof whose audit path is shorter or longer than the walk from its leaf to the root
-        // can never be valid; walking past the root would take the index calculations outside
-        // of their domain.
-        let tree_index = leaf_index.saturating_mul(2);
-        let Some(expected) = crate::audit_path_len(tree_index, tree_size.get()) else {
-            return Err(InvalidProof::leaf_index_outside_tree(leaf_index, tree_size));
-        };
-        let actual = audit_path.len() / 32;
-        if actual != expected {
-            return Err(InvalidProof::audit_path_wrong_length(actual, expected));
         }
 
         Ok(Proof {
@@ -558,6 +527,13 @@ impl Proof {
     ///     .finish_leaf()
     ///     .perform());
     /// ```
+    /// Returns if the audit path contains exactly one hash for every step from the leaf to the
+    /// root of a tree of size [`Proof::tree_size`].
+    fn has_complete_audit_path(&self) -> bool {
+        crate::audit_path_len(self.leaf_index.saturating_mul(2), self.tree_size.get())
+            == Some(self.len())
+    }
+
     #[must_use = "an audit must be performed to be useful"]
     pub fn audit(&self) -> Audit<'_> {
         Audit::new(self)
@@ -597,14 +573,19 @@ impl Proof {
         } = self;
         let mut i = crate::leaf_index_to_tree_index(*leaf_index);
         let mut acc = leaf_hash;
+        let root = crate::complete_root(tree_size.get());
         for sibling in audit_path.chunks(32) {
-            let parent = crate::complete_parent(i, tree_size.get());
-            if parent > i {
-                acc = crate::combine(&acc, sibling);
-            } else {
-                acc = crate::combine(sibling, &acc);
+            // The root has no parent: an audit path with more hashes than there are steps from
+            // the leaf to the root can not be followed any further.
+            if i != root {
+                let parent = crate::complete_parent(i, tree_size.get());
+                if parent > i {
+                    acc = crate::combine(&acc, sibling);
+                } else {
+                    acc = crate::combine(sibling, &acc);
+                }
+                i = parent;
             }
-            i = parent;
         }
         acc
     }
